@@ -9,6 +9,7 @@
 (*   mutate(id, kind, args)                 in-place update_defaults / update_bound / update_renames              *)
 (*   eval(id, out, mode, conv, inputs, roots, val | vals)   one pipeline(out, **inputs) (mode call) or one          *)
 (*                                          Pipeline.map(inputs) (mode map; vals = every returned output)          *)
+(*   probe(id, struct)                      structure [outs, roots] of a throw-away copy() of object id             *)
 (* args = [ren, scope, ins, outs, exc, S, N, out, p, k, f, v] ; names in events are CURRENT names.                *)
 EXTENDS Rewrites, Json, IOUtils, TLCExt
 Traces == ndJsonDeserialize(IOEnv.TRACE_FILE)
@@ -97,7 +98,13 @@ TEval == /\ IsEvent("eval") /\ Ev.id \in Live /\ chk' = FALSE
                     /\ LET den == EvalMap(o, Ev.inputs) IN \A k \in DOMAIN Ev.vals : Ev.vals[k][2] = den[OrigOf(o, Ev.vals[k][1])]
                     /\ UNCHANGED rvars
 
-Next == TNew \/ TRewrite \/ TRefuse \/ TMutate \/ TEval
+(* a throw-away copy of a live object shows the structure of that object's entry (cheap observation after every step:  *)
+(* it re-reads the per-function renames / defaults / bound state, which is where objects could share mutable state)     *)
+TProbe == /\ IsEvent("probe") /\ Ev.id \in Live /\ chk' = FALSE /\ Len(Ev.struct) = 1 /\ Ev.exc = ""
+          /\ LET st == StructOf(O(Ev.id)) IN st.outs = SeqToSet(Ev.struct[1].outs) /\ st.roots = SeqToSet(Ev.struct[1].roots)
+          /\ UNCHANGED rvars
+
+Next == TNew \/ TRewrite \/ TRefuse \/ TMutate \/ TEval \/ TProbe
 Spec == Init /\ [][Next]_<<rvars, tid, l, chk, pre>>
 
 Track == IF l > TLCGet(tid) THEN TLCSet(tid, l) ELSE TRUE
